@@ -1,3 +1,4 @@
+import BS.Lemmas.Lift
 import BS.Lemmas.EncNest
 /-
   C14 — the error an L2 decoder reports identifies the first defect in byte order.
@@ -212,5 +213,25 @@ example : (decTransaction ⟨0, [1, 0, 0, 0] ++ ([1] ++ List.replicate 36 0 ++ [
 /-- one input, no output, an empty witness, and nothing after it -/
 example : (decTransaction ⟨0, [1, 0, 0, 0] ++ [0x00, 0x01] ++ encTxIns [⟨⟨List.replicate 32 0, 0⟩, [], 0⟩] ++
     encTxOuts [] ++ List.replicate 1 0 ++ []⟩).res = .err .segwitFlagWithoutWitnesses := by decide
+
+/-! ## L1 corollaries (generated by tools/genlift.py) -/
+section L1
+open BS.Ref BS.Lift
+
+/-- on the model of the code (parse = never-breaking visitor): never VisitBreak, Other or a panic -/
+theorem C14_L1_never_break_other_transaction (s : Slice) (hs : s.len < 2 ^ 62) :
+    NeverBreakOther (parseOf (Transaction.visit s)) := by
+  rw [parseOf_transaction s hs]; exact C14_never_break_other_transaction s
+
+theorem C14_L1_never_break_other_block (s : Slice) (hs : s.len < 2 ^ 62) :
+    NeverBreakOther (parseOf (Block.visit s)) := by
+  rw [parseOf_block s hs]; exact C14_never_break_other_block s
+
+theorem C14_L1_flag (s : Slice) (hs : s.len < 2 ^ 62) (f : UInt8) :
+    parseOf (Transaction.visit s) = .err (.unknownSegwitFlag f) ↔
+      ∃ ver r, ver.length = 4 ∧ s.bytes = ver ++ [0x00, f] ++ r ∧ f ≠ 1 := by
+  rw [parseOf_transaction s hs]; exact C14_flag s f
+
+end L1
 
 end BS
